@@ -53,6 +53,12 @@ func (m Misbehaviour) ValidateBasic() error {
 	if m.Header2 == nil {
 		return errorsmod.Wrap(ErrInvalidHeader, "misbehaviour Header2 cannot be nil")
 	}
+	if m.Header1.SignedHeader == nil || m.Header1.Header == nil {
+		return errorsmod.Wrap(ErrInvalidHeader, "misbehaviour Header1 signed header cannot be nil")
+	}
+	if m.Header2.SignedHeader == nil || m.Header2.Header == nil {
+		return errorsmod.Wrap(ErrInvalidHeader, "misbehaviour Header2 signed header cannot be nil")
+	}
 	if m.Header1.TrustedHeight.RevisionHeight == 0 {
 		return errorsmod.Wrapf(ErrInvalidHeaderHeight, "misbehaviour Header1 cannot have zero revision height")
 	}
@@ -117,6 +123,14 @@ func validCommit(chainID string, blockID cmttypes.BlockID, commit *cmtproto.Comm
 	tmValset, err := cmttypes.ValidatorSetFromProto(valSet)
 	if err != nil {
 		return errorsmod.Wrap(err, "validator set is not tendermint validator set type")
+	}
+
+	// CometBFT panics while building the vote sign bytes when a signature timestamp is not
+	// representable as a protobuf timestamp (outside years 1..9999)
+	for _, sig := range tmCommit.Signatures {
+		if y := sig.Timestamp.Year(); y < 1 || y > 9999 {
+			return errorsmod.Wrap(clienttypes.ErrInvalidMisbehaviour, "commit signature timestamp out of range")
+		}
 	}
 
 	if err := tmValset.VerifyCommitLight(chainID, blockID, tmCommit.Height, tmCommit); err != nil {
